@@ -115,12 +115,14 @@ def check_function(chk, module: str, qual: str) -> None:
     fi = repo.func(module, qual)
     chk.note_function(fi)
     fold = Folder(repo, module)
+    # undecorated module-level functions the torsion function may call (a `_normalized(v)` helper ...): interpreted by the algebra
+    helpers = {name: f.node for name, f in repo.module(module).funcs.items() if "." not in name and isinstance(f.node, ast.FunctionDef) and not f.node.decorator_list and f.node is not fi.node}
     try:
-        res = TA.analyse(fi.node, fold.fold)
+        res = TA.analyse(fi.node, fold.fold, helpers)
     except TA.NotOneAtan2 as ex0:
         # not a single plain atan2(y, x): the part from the first inverse trigonometric / sign function on is read on the whole circle
         try:
-            res = CI.analyse_circle(fi.node, fold.fold)
+            res = CI.analyse_circle(fi.node, fold.fold, helpers)
         except AlgebraError as ex:
             chk.error("torsion-closed-form", fi.where, f"function body is outside the straight-line vector algebra: {ex} ({ex0})")
             return
@@ -260,6 +262,25 @@ def check_function(chk, module: str, qual: str) -> None:
                 v = None
             if isinstance(v, CI.Trig) and v.unit:
                 chk.ok("clip-noop", fi.site(c), f"the clipped quantity equals {v.text()} as a polynomial identity (|b1 x b2| |b2 x b3| times it is the {'cosine' if v.kind == 'c' else 'sine'} term): it lies in [-1, 1], the clip only removes round-off")
+                continue
+            rng = leaves.factor_range(v.kappa) if isinstance(v, CI.Trig) and v.kappa is not None and v.unit is not None else None
+            if rng is not None:
+                # the clipped quantity is k * cos(phi) (or k * sin(phi)) with k a monomial in bond lengths and sines of the bond angles
+                lo_k, hi_k, ktext, at = rng
+                trig = "cos(phi)" if v.kind == "c" else "sin(phi)"
+                if hi_k <= 1.0 + 1e-12:
+                    chk.ok("clip-noop", fi.site(c), f"the clipped quantity is k * {trig} with k = {ktext} <= {hi_k:.3g} on the whole domain (bond lengths 0.8-2.5 A, bond angles 20-160 degrees): it lies in [-1, 1], the clip only removes round-off")
+                else:
+                    where = ", ".join(f"{ {'l1': '|b1|', 'l2': '|b2|', 'l3': '|b3|', 's1': 'sin(theta1)', 's2': 'sin(theta2)'}[q]} = {x:g}" for q, x in at.items())
+                    chk.violation(
+                        "clip-noop",
+                        fi.site(c),
+                        f"`{norm(c)[:60]}` clips k * {trig} with k = {ktext}, which is not bounded by 1: it reaches {hi_k:.3g} on the domain of the property ({where}). Wherever k |{trig}| > 1 the clip changes this argument of the atan2 "
+                        "while the other one keeps its scale, so the value returned is not phi and depends on the bond lengths and bond angles (the torsion must be independent of them)",
+                        K(fi, "clip"),
+                        expected="a clipped quantity inside [-1, 1] on the whole domain (a product of unit vectors)",
+                        found={"k": ktext, "sup": round(hi_k, 4), "at": at},
+                    )
                 continue
         if not (isinstance(arg, ast.Call) and astq.callee_name(arg) == "dot" and len(arg.args) == 2 and lohi == [-1.0, 1.0]):
             chk.error("clip-noop", fi.site(c), f"`{norm(c)[:60]}`: clipped quantity is not a dot product clipped to [-1, 1]")
